@@ -198,3 +198,47 @@ func Verif_C16_two_notices() {
 	verifapi.Quiesce()
 	verifapi.Assert("no-lock-left-held", verifapi.HeldLocks() == 0)
 }
+
+// Verif_C16_notice_survives_an_unrelated_socket_closing: the sender's socket is slow to read its
+// notices; four 'service unknown' notices for four of its datagrams arrive (the last ones are still
+// being handed over inside the node), and at that moment an UNRELATED socket of the node is closed.
+// When the sender finally reads, it finds one notice per datagram - a socket closing elsewhere on the
+// node takes nothing away from it.
+func Verif_C16_notice_survives_an_unrelated_socket_closing() {
+	n := verifNetceptor("A")
+	s := n.s
+	sender, err := s.ListenPacket("s1")
+	verifapi.Assert("listen-ok", err == nil)
+	other, err := s.ListenPacket("s2")
+	verifapi.Assert("listen-ok-2", err == nil)
+	sub := sender.SubscribeUnreachable(make(chan struct{}))
+	verifapi.Quiesce()
+	for i := 0; i < 4; i++ {
+		um := &UnreachableMessage{FromNode: "A", FromService: "s1", ToNode: "R", ToService: []string{"d0", "d1", "d2", "d3"}[i], Problem: ProblemServiceUnknown}
+		md := &MessageData{FromNode: "R", ToNode: "A", FromService: "unreach", ToService: "unreach", HopsToLive: 5, Data: verifapi.JSON(um)}
+		go func() { _ = s.handleMessageData(md) }()
+		verifapi.Quiesce()
+	}
+	closed := make(chan bool, 1)
+	go func() { _ = other.Close(); closed <- true }()
+	verifapi.Quiesce()
+	seen := map[string]int{}
+	for i := 0; i < 8; i++ {
+		select {
+		case m := <-sub:
+			seen[m.ToService]++
+		default:
+		}
+		verifapi.Quiesce()
+	}
+	verifapi.Cover("sender-read-its-notices")
+	verifapi.Assert("one-notice-per-datagram", verifapi.All(seen["d0"] == 1, seen["d1"] == 1, seen["d2"] == 1, seen["d3"] == 1))
+	select {
+	case <-closed:
+	default:
+		verifapi.Assert("unrelated-close-completes", false)
+	}
+	_ = sender.Close()
+	verifapi.Quiesce()
+	verifapi.Assert("no-lock-left-held", verifapi.HeldLocks() == 0)
+}
